@@ -30,9 +30,13 @@ def explicitSum (χ : Vec3 → K) (entries : List (Vec3 × K)) : K :=
 def applyExpdK (χd : Vec3 → K) (entries : List (Vec3 × K)) : List (Vec3 × K) :=
   entries.map fun e => (e.1, e.2 * χd e.1)
 
+/-- fft branch of `FFT_R_to_k.__call__` on data that already carry their phases -/
+def fftCore (Finv : (Vec3 → K) → Vec3 → K) (N : Mesh) (entries : List (Vec3 × K)) (m : Vec3) : K :=
+  Finv (placeOnBox N entries) m
+
 /-- fft branch: place on the box, inverse transform times `prod(NKFFT)` (= parameter `Finv`), value at box point `m` -/
 def fftPath (Finv : (Vec3 → K) → Vec3 → K) (N : Mesh) (χd : Vec3 → K) (entries : List (Vec3 × K)) (m : Vec3) : K :=
-  Finv (placeOnBox N (applyExpdK χd entries)) m
+  fftCore Finv N (applyExpdK χd entries) m
 
 def npow (z : K) : Nat → K
   | 0 => 1
@@ -41,11 +45,16 @@ def npow (z : K) : Nat → K
 /-- `exponent[i][(k_i * R_i) % N_i]` with `exponent[i][j] = ζ_i^j` -/
 def slowPhase (ζ : K) (N : Nat) (k R : Int) : K := npow ζ ((k * R) % (N : Int)).toNat
 
-/-- slow branch: `sum(prod_i exponent[i][(k_i R_i) % N_i] * A for R, A in zip(iRvec % NKFFT, AAA_R))` -/
-def slowPath (ζ : K × K × K) (N : Mesh) (χd : Vec3 → K) (entries : List (Vec3 × K)) (m : Vec3) : K :=
-  sumK ((applyExpdK χd entries).map fun e =>
+/-- slow branch of `FFT_R_to_k.__call__` on data that already carry their phases:
+    `sum(prod_i exponent[i][(k_i R_i) % N_i] * A for R, A in zip(iRvec % NKFFT, AAA_R))` -/
+def slowCore (ζ : K × K × K) (N : Mesh) (entries : List (Vec3 × K)) (m : Vec3) : K :=
+  sumK (entries.map fun e =>
     let R := vmod e.1 N
     (slowPhase ζ.1 N.1 m.1 R.1 * slowPhase ζ.2.1 N.2.1 m.2.1 R.2.1 * slowPhase ζ.2.2 N.2.2 m.2.2 R.2.2) * e.2)
+
+/-- slow branch after `apply_expdK` -/
+def slowPath (ζ : K × K × K) (N : Mesh) (χd : Vec3 → K) (entries : List (Vec3 × K)) (m : Vec3) : K :=
+  slowCore ζ N (applyExpdK χd entries) m
 
 /-- `Rvectors.derivative`: `1j * XX_R * cRvec_shifted[..., α]` for one element and one component -/
 def derivStep (I : K) (v : K) (x : K) : K := I * x * v
@@ -55,6 +64,59 @@ def derivN (I : K) (vs : List K) (x : K) : K := vs.foldl (fun acc v => derivStep
 
 /-- `0.5 * (A + A.swapaxes.conj())` for one element -/
 def hermitize (half : K) (conj : K → K) (A : Nat → Nat → K) (a b : Nat) : K := half * (A a b + conj (A b a))
+
+/-! ### the Fourier state of ONE `Rvectors` object over a history of `set_fft_R_to_k` calls -/
+
+inductive Lib where
+  | fft    -- 'fftw' and 'numpy': the fft branch
+  | slow   -- 'slow': explicit sum on the grid
+deriving DecidableEq
+
+/-- argument of one `set_fft_R_to_k` call: a grid `(NK, fftlib, dK)` or an explicit list of k-points (their characters) -/
+inductive Cfg (K : Type) where
+  | grid (N : Mesh) (lib : Lib) (χd : Vec3 → K)
+  | klist (χs : List (Vec3 → K))
+
+inductive Mode (K : Type) where
+  | unset
+  | grid (N : Mesh) (lib : Lib)
+  | klist (χs : List (Vec3 → K))
+
+/-- `self.expdK` and `self.fft_R_to_k` -/
+structure FFTState (K : Type) where
+  expdK : Vec3 → K
+  mode : Mode K
+
+def FFTState.init : FFTState K := ⟨fun _ => 1, .unset⟩
+
+/-- `set_fft_R_to_k`: the grid branch stores `expdK` AND the transform; the k-list branch replaces only the transform
+    (`self.expdK` keeps its old value, which `apply_expdK` then ignores) -/
+def setFFT (s : FFTState K) : Cfg K → FFTState K
+  | .grid N lib χd => ⟨χd, .grid N lib⟩
+  | .klist χs => ⟨s.expdK, .klist χs⟩
+
+/-- `R_to_k(apply_expdK(XX_R))` with whatever is currently set: the values at all k-points of the current configuration -/
+def rToK (Finv : Mesh → (Vec3 → K) → Vec3 → K) (ζ : Mesh → K × K × K) (s : FFTState K)
+    (entries : List (Vec3 × K)) : List K :=
+  match s.mode with
+  | .unset => []
+  | .grid N lib =>
+    let e := applyExpdK s.expdK entries
+    match lib with
+    | .fft => (gridPoints N).map (fftCore (Finv N) N e)
+    | .slow => (gridPoints N).map (slowCore (ζ N) N e)
+  | .klist χs => χs.map fun χ => explicitSum χ entries
+
+/-- the state after a history of calls -/
+def runCfgs (cfgs : List (Cfg K)) : FFTState K := cfgs.foldl setFFT FFTState.init
+
+/-- what the CURRENT configuration alone prescribes -/
+def rToKcfg (Finv : Mesh → (Vec3 → K) → Vec3 → K) (ζ : Mesh → K × K × K) (c : Cfg K)
+    (entries : List (Vec3 × K)) : List K :=
+  match c with
+  | .grid N .fft χd => (gridPoints N).map (fftPath (Finv N) N χd entries)
+  | .grid N .slow χd => (gridPoints N).map (slowPath (ζ N) N χd entries)
+  | .klist χs => χs.map fun χ => explicitSum χ entries
 
 end scalars
 
@@ -110,6 +172,24 @@ def handle : List String → String
         ++ showListWith showGRat ";" (pts.map (slowPath z N χd entries)) ++ " | "
         ++ showListWith showGRat ";" (pts.map fun m => explicitSum (fun r => gchar false N m r * χd r) entries)
     | _, _, _, _, _, _, _, _, _ => "bad-op"
+  -- a history of set_fft_R_to_k calls on ONE object, R_to_k(apply_expdK(X)) after each:
+  --   steps separated by '#':  "g:N1,N2,N3:lib:q1,q2,q3" (lib 0 = fft, 1 = slow, dK = q/4)  |  "k:t1,t2,t3;..." (k = t/4)
+  | ["seq", steps, rs, xs] =>
+    let parseStep := fun (t : String) =>
+      match t.splitOn ":" with
+      | ["g", n, lib, q] =>
+        match (parseNats? n).bind toMesh?, parseNat? lib, (parseInts? q).bind toVec3? with
+        | some N, some l, some q => some (Cfg.grid N (if l = 0 then Lib.fft else Lib.slow) (quarterChar q))
+        | _, _, _ => none
+      | ["k", ks] => ((parseIntss? ks).bind (·.mapM toVec3?)).map fun l => Cfg.klist (l.map quarterChar)
+      | _ => none
+    match (steps.splitOn "#").mapM parseStep, (parseIntss? rs).bind (·.mapM toVec3?), parseGRats? xs with
+    | some cfgs, some R, some X =>
+      let entries := R.zip X
+      let states := (List.range cfgs.length).map fun i => runCfgs (cfgs.take (i + 1))
+      showListWith (fun st => showListWith showGRat ";"
+          (rToK (fun N => idftBox N) (fun N => (zeta N.1, zeta N.2.1, zeta N.2.2)) st entries)) "#" states
+    | _, _, _ => "bad-op"
   | _ => "bad-op"
 
 end WB.C02
